@@ -679,7 +679,7 @@ Section VerifyProofs.
   (* verify_exact *)
   Lemma verify_exact fuel bstr repair s0 s' msgs :
     is_dir (stat (st_base st) s0) = true ->
-    verify H zdecomp fuel st bstr repair s0 = (s', msgs, None) ->
+    verify_raw H zdecomp fuel st bstr repair s0 = (s', msgs, None) ->
     (forall i, In i (reported msgs) -> wf_id i /\ invalid i s0) /\
     (forall i en, wf_id i -> stat (canon st i) s0 = Some en -> is_dir (Some en) = false ->
                   invalid i s0 -> In i (reported msgs)) /\
@@ -691,7 +691,7 @@ Section VerifyProofs.
     (st_skip st = false -> forall i m b, wf_id i -> stat (canon st i) s0 = Some (EFile m b) ->
                       ~ In i (reported msgs) -> exists d, storage_data zdecomp (st_unc st) b = Some d /\ H d = i).
   Proof.
-    intros D. unfold verify. destruct (verify_ids fuel st bstr s0) as [ids e] eqn:VI.
+    intros D. unfold verify_raw. destruct (verify_ids fuel st bstr s0) as [ids e] eqn:VI.
     destruct (Prune.verify_all H zdecomp st repair ids s0) as [s1 m1] eqn:VA.
     intros E. inversion E; subst. clear E.
     destruct (verify_ids_spec _ _ _ _ _ VI) as [Wf Cov]. specialize (Cov eq_refl D).
@@ -962,7 +962,7 @@ Qed.
 
 Lemma verify_leaves_other_format (H : bytes -> id) zdecomp st fuel bstr repair s0 s' msgs j :
   is_dir (stat (st_base st) s0) = true ->
-  verify H zdecomp fuel st bstr repair s0 = (s', msgs, None) -> wf_id j ->
+  verify_raw H zdecomp fuel st bstr repair s0 = (s', msgs, None) -> wf_id j ->
   stat (canon (other_format st) j) s' = stat (canon (other_format st) j) s0 /\
   (is_dir (stat (fst (name_from_id st j)) s0) = true -> stat (canon st j) s0 = None -> ~ In j (reported msgs)).
 Proof.
@@ -974,4 +974,51 @@ Proof.
     assert (P : probe (snd (name_from_id st j)) s0 = Err ENOENT).
     { unfold canon, name_from_id in N, Dd |- *. cbn [fst snd] in N, Dd |- *. exact (probe_missing_in_dir _ _ _ Dd N). }
     unfold LocalStore.get_chunk, read_file in G. rewrite P in G. discriminate.
+Qed.
+
+(* LocalStore.Verify (reads with verification whatever the store's SkipVerify says) *)
+Lemma verify_exact_any (H : bytes -> id) zdecomp st fuel bstr repair s0 s' msgs :
+  is_dir (stat (st_base st) s0) = true ->
+  verify H zdecomp fuel st bstr repair s0 = (s', msgs, None) ->
+  (forall i, In i (reported msgs) -> wf_id i /\ exists sum, get_chunk H zdecomp (verifying st) i s0 = GetInvalid sum) /\
+  (forall i en, wf_id i -> stat (snd (name_from_id st i)) s0 = Some en -> is_dir (Some en) = false ->
+     (exists sum, get_chunk H zdecomp (verifying st) i s0 = GetInvalid sum) -> In i (reported msgs)) /\
+  (repair = false -> s' = s0) /\
+  (forall q, stat q s' = stat q s0 \/
+     (stat q s' = None /\ repair = true /\ exists i, In i (reported msgs) /\ q = snd (name_from_id st i))) /\
+  (repair = true -> forall i en, In i (reported msgs) -> stat (snd (name_from_id st i)) s0 = Some en ->
+     is_dir (Some en) = false -> stat (snd (name_from_id st i)) s' = None) /\
+  (forall i m b, wf_id i -> stat (snd (name_from_id st i)) s0 = Some (EFile m b) ->
+     ~ In i (reported msgs) -> exists d, storage_data zdecomp (st_unc st) b = Some d /\ H d = i).
+Proof.
+  intros D V. unfold verify in V.
+  destruct (verify_exact H zdecomp (verifying st) fuel bstr repair s0 s' msgs D V) as (A1 & A2 & A3 & A4 & A5 & A6).
+  split; [exact A1|]. split; [exact A2|]. split; [exact A3|]. split; [exact A4|]. split; [exact A5|].
+  exact (A6 eq_refl).
+Qed.
+
+Lemma verify_leaves_other_format_any (H : bytes -> id) zdecomp st fuel bstr repair s0 s' msgs j :
+  is_dir (stat (st_base st) s0) = true ->
+  verify H zdecomp fuel st bstr repair s0 = (s', msgs, None) -> wf_id j ->
+  stat (canon (other_format st) j) s' = stat (canon (other_format st) j) s0 /\
+  (is_dir (stat (fst (name_from_id st j)) s0) = true -> stat (canon st j) s0 = None -> ~ In j (reported msgs)).
+Proof.
+  intros D V Wj. exact (verify_leaves_other_format H zdecomp (verifying st) fuel bstr repair s0 s' msgs j D V Wj).
+Qed.
+
+(* what Verify did before: run on a store opened with SkipVerify it reports nothing and removes nothing,
+   whatever the store holds *)
+Lemma verify_raw_skip_reports_nothing (H : bytes -> id) zdecomp st fuel bstr repair s0 :
+  st_skip st = true ->
+  fst (fst (verify_raw H zdecomp fuel st bstr repair s0)) = s0 /\
+  reported (snd (fst (verify_raw H zdecomp fuel st bstr repair s0))) = [].
+Proof.
+  intros K. unfold verify_raw. destruct (verify_ids fuel st bstr s0) as [ids e].
+  assert (G : forall l s, exists m, Prune.verify_all H zdecomp st repair l s = (s, m) /\ reported m = []).
+  { induction l as [|i r IH]; intros s; cbn [Prune.verify_all]; [exists []; split; reflexivity|].
+    destruct (IH s) as (m & E & R).
+    unfold Prune.verify_one, LocalStore.get_chunk. destruct (read_file _ s) as [b|].
+    - unfold new_chunk_from_storage. rewrite K, E. exists m. split; [reflexivity|exact R].
+    - rewrite E. exists (VmOther i :: m). split; [reflexivity|exact R]. }
+  destruct (G ids s0) as (m & E & R). rewrite E. cbn. split; [reflexivity|exact R].
 Qed.
